@@ -188,3 +188,63 @@ def template_is_autoescaped():
 def render_page(tb, files):
     app = F.create_app(tb, files)
     return app.get_local_client().get('/x/y').get_data(True)
+
+
+import os as _os
+TB_CATALOGUE = [('ValueError', 'bad value'), ('Exception', '3 malformed rows ignored'), ('Exception', 'ignored'), ('json.decoder.JSONDecodeError', 'Expecting value: line 1'),
+                ('KeyError', "'k'"), ('Exception', 'Exception ignored in: <x>'), ('my_pkg.Err', 'a: b: c'), ('OSError', '[Errno 5] Input/output error: <f>'),
+                ('UnicodeDecodeError', "'utf-8' codec can't decode"), ('E', '')]
+
+
+def _tb_catalogue(i, depth, trailer):
+    T, M = TB_CATALOGUE[i]
+    frames = ''.join('  File "m%d.py", line %d, in f%d\n    call%d()\n' % (k, k + 1, k, k) for k in range(depth + 1))
+    tb = 'Traceback (most recent call last):\n' + frames + T + ': ' + M
+    if trailer:
+        tb += '\n'
+    app = F.create_app(tb, None)
+    page = app.get_local_client().get('/').get_data(True)
+    head = '<h2 class="parsed-error-h2">%s<p>' % ashes.escape_html(T)
+    if head not in page:
+        return False
+    after = page.split(head, 1)[1].split('</p>', 1)[0]
+    return ashes.escape_html(M.strip()) in after
+
+
+def ob_tb_catalogue(i: int, depth: int, trailer: bool) -> bool:
+    from harness.util import untraced
+    with untraced():
+        return _tb_catalogue(i, depth, trailer)
+
+
+def confirm_tb_catalogue(i, depth, trailer):
+    return not _tb_catalogue(i, depth, trailer)
+
+
+def _files_on_page(kind):
+    """every monitored file name is on the page (escaped) - also the ones inside the stdlib / site-packages / clastic"""
+    import werkzeug
+    files = [['/app/<main>.py', _os.__file__, werkzeug.__file__, F.__file__], [_os.__file__], ['/srv/a&b.py'] * 3 + [werkzeug.__file__], []][kind]
+    want = list(files)
+    app = F.create_app('boom', list(files) if files else files)
+    for path in ('/', '/x/y'):
+        resp = app.get_local_client().get(path)
+        if resp.status_code != 200:
+            return False
+        page = resp.get_data(True)
+        for fn in want:
+            if ashes.escape_html(fn) not in page:
+                return False
+        if '<main>' in page:
+            return False
+    return True
+
+
+def ob_files_on_page(kind: int) -> bool:
+    from harness.util import untraced
+    with untraced():
+        return _files_on_page(kind)
+
+
+def confirm_files_on_page(kind):
+    return not _files_on_page(kind)
